@@ -1,5 +1,5 @@
 use nom::{
-    bytes::complete::tag, character::complete::char, combinator::opt, multi::many0,
+    bytes::complete::tag, combinator::opt, multi::many0,
     sequence::terminated,
 };
 
@@ -32,7 +32,7 @@ pub fn set(input: Input<'_>) -> ParserResult<'_, ASN1Type> {
                         skip_ws_and_comments(sequence_component),
                         optional_comma,
                     )),
-                    opt(terminated(extension_marker, opt(char(COMMA)))),
+                    opt(terminated(extension_marker, optional_comma)),
                     opt(many0(terminated(
                         skip_ws_and_comments(alt((extension_group, sequence_component))),
                         optional_comma,
